@@ -383,8 +383,60 @@ fn opt_rec(r: &mut Rng, hostile: bool, svc: &Labels) -> Rec {
     Rec { owner, rtype: t::OPT, class: size & 0x7fff, cache_flush: size & 0x8000 != 0, ttl, fields: vec![F::Bytes(rdata)] }
 }
 
+/// Compression-pointer mazes: 2-byte pointer values planted where no name is parsed in place
+/// (the id field, the content of a label, opaque RDATA), pointing at one another at random —
+/// cycles and forward hops included — and a name that enters the maze from above. A decoder
+/// that bounds its walk by anything other than "every hop goes strictly backwards" (or a hop
+/// count) loops for ever on some of these.
+fn pointer_maze(r: &mut Rng) -> Vec<u8> {
+    let response = r.chance(1, 2);
+    let mut v: Vec<u8> = vec![0, 0, if response { 0x84 } else { 0 }, 0, 0, 0, 0, 0, 0, 0, 0, 0];
+    let ptr = |to: usize| [0xC0 | ((to >> 8) as u8 & 0x3f), to as u8];
+    match r.below(3) {
+        0 => {
+            // the id reads as a pointer; the first name points at it
+            let t = *r.pick(&[0usize, 0, 2, 12]);
+            v[0..2].copy_from_slice(&ptr(t));
+            v[5] = 1; // one question
+            v.extend_from_slice(&ptr(0));
+            v.extend_from_slice(&[0, 12, 0, 1]);
+        }
+        1 => {
+            // a label full of pointers, then a second name pointing into the label
+            let k = 1 + r.usize_below(6);
+            v[5] = 2;
+            let base = v.len() + 1;
+            v.push((2 * k) as u8);
+            for _ in 0..k {
+                let to = base + 2 * r.usize_below(k);
+                v.extend_from_slice(&ptr(to));
+            }
+            v.push(0);
+            v.extend_from_slice(&[0, 12, 0, 1]);
+            v.extend_from_slice(&ptr(base + 2 * r.usize_below(k)));
+            v.extend_from_slice(&[0, 12, 0, 1]);
+        }
+        _ => {
+            // opaque RDATA full of pointers, then a record whose owner points into it
+            let k = 1 + r.usize_below(6);
+            v[2] = 0x84;
+            v[7] = 2; // two answers
+            v.extend_from_slice(&[1, b'a', 0, 0, 16, 0, 1, 0, 0, 0, 60, 0, (2 * k + 1) as u8, (2 * k) as u8]);
+            let base = v.len();
+            for _ in 0..k {
+                let to = if r.chance(1, 4) { r.usize_below(base) } else { base + 2 * r.usize_below(k) };
+                v.extend_from_slice(&ptr(to));
+            }
+            v.extend_from_slice(&ptr(base + 2 * r.usize_below(k)));
+            v.extend_from_slice(&[0, 1, 0, 1, 0, 0, 0, 60, 0, 4, 10, 0, 0, 1]);
+        }
+    }
+    v
+}
+
 fn garbage(r: &mut Rng) -> Vec<u8> {
-    match r.below(8) {
+    match r.below(10) {
+        8 | 9 => pointer_maze(r),
         0 => vec![],
         1 => {
             let n = 1 + r.usize_below(11);
